@@ -101,9 +101,35 @@ def per_path(ctx, po, sh):
                 continue
             if sh.get('variant') == 'parent' and what == 'ref-vs-owned':
                 continue          # the child fields carry separate owned / by-ref instructions on purpose: different instructions apply
-            if what == 'existing-vs-into' and (ka in amb or kb in amb):
-                ctx.cov['sub_checks']['existing-vs-into pairs skipped: tuple positions with a skipped member in front (ambiguous)'] = ctx.cov['sub_checks'].get('existing-vs-into pairs skipped: tuple positions with a skipped member in front (ambiguous)', 0) + 1
-                continue
+            tag = ''
+            if what == 'existing-vs-into':
+                # position bookkeeping differs between `into` and `into_existing` when a skipped (ghost / parent) member precedes a mapped
+                # one in a tuple-form counterpart; the configuration is recorded in the class so the known defect does not hide others
+                skipped, plain_after, instr_after = False, False, False
+                for m in po.spec.members:
+                    w = orc.winner(m, ka[0], ka[1], 'X')
+                    if (w is not None and w[0] == 'ghost') or any(isinstance(x, __import__('spec').ParentInstr) for x in orc.instrs(m)):
+                        skipped = True
+                    elif skipped:
+                        if w is None:
+                            plain_after = True
+                        else:
+                            instr_after = True
+                g = orc.ghosts_for('X', ka[0])
+                idx_ghost = g is not None and any(gd.ident[0] == 'i' for gd in g.data)
+                if (ka in amb or kb in amb) and po.spec.shape == 'tuple':
+                    # tuple struct -> tuple counterpart with a skipped member in front: `into` (compacted positions) and `into_existing`
+                    # (declared indices) cannot both compile against one counterpart definition, so they cannot disagree at run time
+                    ctx.cov['sub_checks']['existing-vs-into pairs skipped: tuple struct with a skipped member in front'] = ctx.cov['sub_checks'].get('existing-vs-into pairs skipped: tuple struct with a skipped member in front', 0) + 1
+                    continue
+                if ka in amb or kb in amb:
+                    # which entries sit at different positions: the members (with / without an instruction) or only the struct-level ghosts?
+                    lit = literal_of(decs[ka])
+                    n_members = sum(1 for m in po.spec.members if not ((orc.winner(m, ka[0], ka[1], 'X') or (None,))[0] == 'ghost'))
+                    want = [('other.%d' % i, r) for i, (_, r) in enumerate(lit['slots'])] if lit['form'] == 'tuple' else []
+                    got = decs[kb]['assigns']
+                    member_diff = want[:n_members] != got[:n_members]
+                    tag = ('/member-position-' + ('plain' if plain_after else 'instructed')) if member_diff else '/indexed-ghost-position'
             ctx.cov['queries']['unsat'] += 1
             da, db = decs[ka], decs[kb]
             if what == 'ref-vs-owned':
@@ -121,7 +147,7 @@ def per_path(ctx, po, sh):
                 nat = ctx.replay.run(text)
                 if nat['status'] == 'ok' and expander.flat_text(nat['out']) == expander.flat(po.tokens):
                     form = literal_of(decs[('OwnedInto', False)])['form'] if ('OwnedInto', False) in decs else '?'
-                    ctx.violation('flavour-agreement', '%s/%s' % (what, form), '%s %s vs %s: %s' % (what, ka, kb, why), {'input': text, 'output': nat['out'][:2500]})
+                    ctx.violation('flavour-agreement', '%s/%s%s' % (what, form, tag), '%s %s vs %s: %s' % (what, ka, kb, why), {'input': text, 'output': nat['out'][:2500]})
                 else:
                     ctx.inconclusive.append('C07 counterexample does not reproduce natively: %s' % text)
 
